@@ -4,25 +4,37 @@ from concurrent.futures import ThreadPoolExecutor
 
 PROPS = ["C17/Props.v"]
 META = dict(
-    text="Rocq theorems over an executable model of the read path (codec wrapper and first-rune test of xopen.Buf, io.ReadFull, the 1 MiB format "
-         "sniffer, the loop of ReadSeqFileChunk for every buffer size B>=2 and every record splitter that cuts inside the buffer, the transcribed "
-         "EndOfLastFastaEntry): a stream that ends with anything but a clean EOF makes the command fatal, a clean stream delivers all its bytes; the "
-         "unrepaired error handling is refuted by computed witnesses. Every run ties the model to the code: every truncation point, random single-bit "
-         "flips and read errors injected after k bytes on small gzip/bzip2/xz/zstd FASTA/FASTQ files (plus a >1 MiB file) go through the real "
-         "Buf/OBIMimeTypeGuesser/ReadSeqFileChunk (one child process per case, production and small buffers) and through the obiconvert binary "
-         "(file argument and stdin); a direct oracle built on reference decoders (Python gzip/bz2/lzma, zstd CLI) demands `fatal` for every "
-         "damaged container and `ok with exactly all records` for every intact one.",
-    note="Assumed, checked on every case of every run but not proved: the codec contract (a damaged container never decodes to a clean EOF). It is "
-         "broken by ulikunitz/xz for cuts inside a block header (known finding, delimited by running the library alone) and was broken by "
-         "klauspost/pgzip (fixed by reading gzip with klauspost/compress/gzip). Format detection (mimetype library) and the record parsers are "
-         "outside the model (detection is a per-case boolean computed with the same regular expressions); bufio/MultiReader are modelled as "
-         "transparent; the explicit-format stdin readers (--embl/--genbank/--ecopcr on stdin: raw os.Stdin, no decompression) are not exercised.")
+    text="Rocq theorems over an executable model of the read path (codec wrapper and first-rune test of xopen.Buf, xopen's end-of-stream guard for xz "
+         "(tail tracker, footer and index check), io.ReadFull, the 1 MiB format sniffer, the loop of ReadSeqFileChunk for every buffer size B>=2 and every "
+         "record splitter that cuts inside the buffer, the transcribed EndOfLastFastaEntry): a stream that ends with anything but a clean EOF makes the "
+         "command fatal, a clean stream delivers all its bytes; an xz container which does not end with a valid index and stream footer is fatal whatever "
+         "the xz library answers; ErrNoContent (empty input) only for an empty stream which ends cleanly. Round 2 adds a model of readers with a read "
+         "schedule (source with per-call sizes and a final error delivered alone or together with the last bytes, bytes.Reader, io.MultiReader, "
+         "bufio.Reader): io.ReadFull as a loop of Read calls refines the abstract one, OBIMimeTypeGuesser (detection on the whole zero padded buffer, "
+         "MultiReader replay) loses and duplicates no byte and keeps the way the stream ends, for every stream, schedule and consumer. Every run ties the "
+         "model to the code: every truncation point (also of containers of an empty text), random and trailer single-bit flips, read errors injected "
+         "after k bytes (alone or with n > 0, random read schedules) on small gzip/bzip2/xz/zstd FASTA/FASTQ files, two-member containers of 0.5-3 MiB "
+         "whose first member ends at a MiB boundary -1/0/+1 of the decoded text cut inside the second member, go through the real "
+         "Buf/OBIMimeTypeGuesser/ReadSeqFileChunk (one child process per case, production and small buffers) and through the obiconvert binary; a "
+         "command matrix runs obiconvert on FASTA/FASTQ/EMBL/GenBank/ecoPCR/CSV inputs x codec x format guessed or imposed x file argument / stdin / "
+         "stdin failing with a genuine EIO after k bytes; a direct oracle built on reference decoders (Python gzip/bz2/lzma, zstd CLI) demands `fatal` "
+         "for every damaged container and `ok with exactly all records` for every intact one.",
+    note="Assumed, checked on every case of every run but not proved: the codec contract (a damaged container never decodes to a clean EOF) for gzip, "
+         "bzip2, zstd, and for xz containers which end with a valid index and footer (ulikunitz/xz ends many truncations with a clean EOF: xopen now "
+         "demands the index and the stream footer at the end of the compressed bytes, proved to reject every other container). The schedule-level model "
+         "is tied to the abstract one by theorems, not evaluated per run (the real code is run under random schedules and compared with the abstract "
+         "model). Format detection (mimetype library) and the record parsers (EMBL, GenBank, ecoPCR, CSV, FASTA/FASTQ records) are outside the model "
+         "(detection is a per-case boolean; the command matrix compares only the verdict fatal / all records). The xz index larger than 64 KiB "
+         "(thousands of blocks) is not checked by the guard. Not exercised: http(s) and '|command' inputs of Ropen, the taxonomy dump / ngsfilter / "
+         "id-list / config readers (plain os.Open, no decompression: a compressed file is a syntax error for them).")
 TRUSTED = [
-    "codec contract: the decompressors (klauspost/compress gzip and zstd, dsnet/bzip2, ulikunitz/xz) never end a truncated/corrupt container with io.EOF "
-    "(validated on every case of the run by the probe route against the Python/zstd reference decoders, not proved; ulikunitz/xz breaks it "
-    "for cuts inside a block header: known finding xz-clean-eof-on-truncation)",
+    "codec contract: the decompressors (klauspost/compress gzip and zstd, dsnet/bzip2) never end a truncated/corrupt container with io.EOF; for xz "
+    "(ulikunitz/xz) only for containers which end with a valid index and stream footer, the others are rejected by xopen's guard (theorem "
+    "C17_xz_guard_rejects_incomplete) (validated on every case of the run by the probe route against the Python/zstd reference decoders, not proved)",
     "format detection (gabriel-vasile/mimetype + the FASTA/FASTQ regular expressions) is a Section variable / per-case boolean of the model",
-    "bufio.Reader and io.MultiReader modelled as transparent (they hand the underlying error over unchanged after the buffered bytes)",
+    "bufio.Reader, io.MultiReader, bytes.Reader and io.ReadFull are modelled from their source (reader, read, readfull_s) and proved transparent "
+    "(C17_readfull_schedule_independent, C17_sniffer_conserves_stream); Peek/ReadRune/UnreadRune of xopen.Buf are modelled as the first-byte test only",
+    "CRC-32 of the xz footer/index is the bitwise IEEE polynomial (crc_bits), validated against hash/crc32 by the xz-guard correspondence on every run",
 ]
 ZSTD = "/root/miniconda/bin/zstd"
 CODECS = ("gz", "bz2", "xz", "zst", "raw")
@@ -121,13 +133,20 @@ def recognised(data):
 
 
 class Base:
-    def __init__(self, ctx, tmp, name, codec, fmt, data):
+    def __init__(self, ctx, tmp, name, codec, fmt, data, blob=None, ids=None, m1=None):
         self.name, self.codec, self.fmt, self.data = name, codec, fmt, data
-        self.blob = compress(codec, data)
+        self.blob = compress(codec, data) if blob is None else blob
         self.path = os.path.join(tmp, "%s.%s.%s" % (name, fmt, codec))
         with open(self.path, "wb") as f:
             f.write(self.blob)
-        self.ids = records_of(data, fmt)
+        self.ids = records_of(data, fmt) if ids is None else ids
+        self.big = len(data) > 100000      # no Gallina term for these (judged by the direct oracle only)
+        self.m1 = m1                        # multi-member container: length of the first member
+
+
+def compress_members(codec, parts):
+    """Concatenated members / frames / streams: every one of the four decoders reads them as one stream."""
+    return b"".join(compress(codec, p) for p in parts)
 
 
 def expectation(base, case):
@@ -179,27 +198,63 @@ def judge(exp, o):
 
 
 # ------------------------------------------------------------------ binary route
-def run_binary(bindir, blob, fmt, stdin, tmp, k):
-    o = run_binary_once(bindir, blob, fmt, stdin, tmp, k)
+def run_binary(bindir, blob, fmt, stdin, tmp, k, flags=(), eio=False, timeout=60):
+    o = run_binary_once(bindir, blob, fmt, stdin, tmp, k, flags, eio, timeout)
     if o["kind"] == "timeout":          # loaded machine: once more before the case is declared hung
-        o = run_binary_once(bindir, blob, fmt, stdin, tmp, k)
+        o = run_binary_once(bindir, blob, fmt, stdin, tmp, k, flags, eio, timeout)
     return o
 
 
-def run_binary_once(bindir, blob, fmt, stdin, tmp, k):
+_libc = None
+
+
+def failing_stdin(data):
+    """A file descriptor whose reads deliver `data` and then fail with EIO: /proc/self/mem positioned on a copy of the data
+    which ends flush with an unmapped page (a genuine read error of the kernel on the real standard input of the command)."""
+    import ctypes
+    global _libc
+    if _libc is None:
+        _libc = ctypes.CDLL(None, use_errno=True)
+        _libc.mmap.restype = ctypes.c_void_p
+        _libc.mmap.argtypes = [ctypes.c_void_p, ctypes.c_size_t, ctypes.c_int, ctypes.c_int, ctypes.c_int, ctypes.c_long]
+        _libc.munmap.argtypes = [ctypes.c_void_p, ctypes.c_size_t]
+    page = 4096
+    n = (len(data) + page - 1) // page + 1
+    addr = _libc.mmap(None, (n + 1) * page, 3, 0x22, -1, 0)          # PROT_READ|PROT_WRITE, MAP_PRIVATE|MAP_ANONYMOUS
+    if addr in (None, ctypes.c_void_p(-1).value):
+        raise OSError("mmap failed")
+    _libc.munmap(addr + n * page, page)
+    start = addr + n * page - len(data)
+    ctypes.memmove(start, data, len(data))
+    fd = os.open("/proc/self/mem", os.O_RDONLY)
+    os.lseek(fd, start, os.SEEK_SET)
+    return fd, (addr, n * page)
+
+
+def run_binary_once(bindir, blob, fmt, stdin, tmp, k, flags=(), eio=False, timeout=60):
     path = os.path.join(tmp, "b%d.dat" % k)
-    with open(path, "wb") as f:
-        f.write(blob)
+    argv = [os.path.join(bindir, "obiconvert")] + list(flags)
     try:
-        if stdin:
-            with open(path, "rb") as f:
-                p = subprocess.run([os.path.join(bindir, "obiconvert")], stdin=f, capture_output=True, timeout=60)
+        if eio:
+            fd, (addr, size) = failing_stdin(blob)
+            try:
+                p = subprocess.run(argv, stdin=fd, capture_output=True, timeout=timeout)
+            finally:
+                os.close(fd)
+                _libc.munmap(addr, size)
         else:
-            p = subprocess.run([os.path.join(bindir, "obiconvert"), path], capture_output=True, timeout=60)
+            with open(path, "wb") as f:
+                f.write(blob)
+            try:
+                if stdin:
+                    with open(path, "rb") as f:
+                        p = subprocess.run(argv, stdin=f, capture_output=True, timeout=timeout)
+                else:
+                    p = subprocess.run(argv + [path], capture_output=True, timeout=timeout)
+            finally:
+                os.unlink(path)
     except subprocess.TimeoutExpired:
         return dict(kind="timeout", nrec=0)
-    finally:
-        os.unlink(path)
     out = p.stdout
     ids = []
     if out.startswith(b">"):
@@ -209,9 +264,176 @@ def run_binary_once(bindir, blob, fmt, stdin, tmp, k):
         ids = records_of(out, "fastq")
     if p.returncode == 0:
         return dict(kind="ok", nrec=len(ids), ids="".join(ids))
-    if p.returncode == 1:
+    if p.returncode == 1 or (p.returncode == 2 and b"level=panic" in p.stderr and b"runtime error" not in p.stderr):
+        # status 2 with a logrus panic entry: log.Panicf(read error) of the ecoPCR reader, a report all the same
         return dict(kind="fatal", nrec=len(ids), err=p.stderr.decode("utf8", "replace")[-160:])
     return dict(kind="panic", nrec=len(ids), err="exit status %s: %s" % (p.returncode, p.stderr.decode("utf8", "replace")[-300:]))
+
+
+# ------------------------------------------------------------------ every other way a command opens an input (route cmd)
+def _seq(rng, n):
+    return "".join(rng.choices("acgt", k=n))
+
+
+def gen_format(rng, fmt, n):
+    """(text, ['id:length;', ...]) of n records in the given format."""
+    if fmt == "fasta":
+        t = gen_fasta(rng, n)
+        return t, records_of(t, "fasta")
+    if fmt == "fastq":
+        t = gen_fastq(rng, n)
+        return t, records_of(t, "fastq")
+    out, ids = [], []
+    if fmt == "ecopcr":
+        out.append("#@ecopcr-v2\n#\n# ecoPCR version 1.0\n# direct  strand oligo1 : GGGCAATCCTGAGCCAA               ; oligo2c :               GGATAGGTGCAGAGACTCAATGG\n"
+                   "# reverse strand oligo2 : CCATTGAGTCTCTGCACCTATCC         ; oligo1c :         TTGGCTCAGGATTGCCC\n# max error count by oligonucleotide : 3\n"
+                   "# optimal Tm : 50.00\n# database : x\n# output in superkingdom mode\n#\n")
+    if fmt == "csv":
+        out.append("id,count,sequence\n")
+    for i in range(n):
+        s = _seq(rng, 120)
+        if fmt == "embl":
+            out.append("ID   E%d; SV 1; linear; genomic DNA; STD; PLN; 120 BP.\nXX\nAC   E%d;\nXX\nDE   test %d\nXX\nOS   Homo sapiens\nOC   Eukaryota.\nXX\n"
+                       "FH   Key             Location/Qualifiers\nFT   source          1..120\nFT                   /db_xref=\"taxon:9606\"\nXX\n"
+                       "SQ   Sequence 120 BP;\n     %s %s       60\n     %s %s      120\n//\n" % (i, i, i, s[:30], s[30:60], s[60:90], s[90:]))
+            ids.append("E%d:120;" % i)
+        elif fmt == "genbank":
+            out.append("LOCUS       G%d                 120 bp    DNA     linear   PLN 01-JAN-2000\nDEFINITION  test %d.\nACCESSION   G%d\nVERSION     G%d.1\n"
+                       "SOURCE      Homo sapiens\n  ORGANISM  Homo sapiens\n            Eukaryota.\nFEATURES             Location/Qualifiers\n"
+                       "     source          1..120\n                     /db_xref=\"taxon:9606\"\nORIGIN      \n        1 %s\n       61 %s\n//\n"
+                       % (i, i, i, i, " ".join(s[k:k + 10] for k in range(0, 60, 10)), " ".join(s[k:k + 10] for k in range(60, 120, 10))))
+            ids.append("G%d:120;" % i)
+        elif fmt == "ecopcr":
+            out.append(" | ".join(["AC%06d" % i, "1000", "9606", "species", "9606", "Homo sapiens", "9605", "Homo", "9604", "Hominidae", "2759", "Eukaryota", "D",
+                                   "GGGCAATCCTGAGCCAA", "0", "55.0", "CCATTGAGTCTCTGCACCTATCC", "0", "56.0", "60", s[:60], "test %d" % i]) + "\n")
+            ids.append("AC%06d:60;" % i)
+        elif fmt == "csv":
+            out.append("c%d,%d,%s\n" % (i, i + 1, s[:40]))
+            ids.append("c%d:40;" % i)
+    return "".join(out).encode(), ids
+
+
+CMD_FORMATS = ("fasta", "fastq", "embl", "genbank", "ecopcr", "csv")
+CMD_FLAG = dict(fasta="--fasta", fastq="--fastq", embl="--embl", genbank="--genbank", ecopcr="--ecopcr")      # no flag for CSV: guessed only
+
+
+def cmd_matrix(ctx, broken, tmp, bindir, state, dist, extended=False):
+    """obiconvert on intact / cut / corrupt inputs of every format it reads, with the format guessed or given, as a file argument
+    or on the standard input (redirected file, and a standard input whose read fails with EIO after k bytes). Direct oracle:
+    damaged => reported (non-zero status in time), intact => status 0 with exactly all records; model: verdict of command_gen."""
+    rng = ctx.rng
+    quick = ctx.quick and not extended
+    cb, cf = [], []          # bases, (base index, cut, flip, -1, tag, variant)
+    for fmt in CMD_FORMATS:
+        text, ids = gen_format(rng, fmt, 6)
+        codecs = ("gz", rng.choice(("bz2", "xz", "zst")), "raw") if quick else ("gz", "bz2", "xz", "zst", "raw")
+        for codec in codecs:
+            cb.append(Base(ctx, tmp, "cmd", codec, fmt, text, ids=ids))
+    # more than 1 MiB of text: the fault is met by the parser, after the sniffer
+    for fmt in (("embl", "csv") if quick else ("embl", "genbank", "csv", "ecopcr")):
+        text, ids = gen_format(rng, fmt, 9000 if fmt == "embl" else 8000 if fmt == "genbank" else 22000 if fmt == "csv" else 5000)
+        for codec in (("gz",) if quick else ("gz", "zst", "xz", "bz2")):
+            cb.append(Base(ctx, tmp, "cmdbig", codec, fmt, text, ids=ids))
+    for bi, b in enumerate(cb):
+        n = len(b.blob)
+        variants = [(g, st) for g in (("guess", "explicit") if b.fmt in CMD_FLAG else ("guess",)) for st in ("file", "stdin")]
+        if b.big:
+            variants = [v for v in variants if v[1] == "file" or not quick]
+        fl = [(-1, -1, "intact")]
+        if b.codec != "raw":
+            if b.big:
+                fl += [(n - n // 10, -1, "cut"), (n - 1, -1, "cut")]
+            else:
+                fl += [(HDRLEN[b.codec], -1, "cut"), (n // 2, -1, "cut"), (n - 1, -1, "cut"), (-1, 8 * (n - 1 - rng.randrange(0, 4)) + rng.randrange(0, 8), "tflip")]
+                if not quick:
+                    fl += [(c, -1, "cut") for c in rng.sample(range(1, n), 6)] + [(-1, rng.randrange(0, 8 * n), "flip") for _ in range(4)]
+        for cut, flip, tag in fl:
+            for v in variants:
+                cf.append((bi, cut, flip, -1, tag, v))
+        # a genuine read error (EIO) of the standard input after k bytes of the (plain or compressed) input
+        ks = [0, 1, n // 2, n - 1, n] if not b.big else [n // 2, n]
+        for k in (ks if not quick else rng.sample(ks, 2)):
+            for g in (("guess", "explicit") if b.fmt in CMD_FLAG else ("guess",)):
+                if quick and rng.random() < 0.5:
+                    continue
+                cf.append((bi, k, -1, -1, "eio", (g, "eio")))
+    nofault = dict(step=0, eager=False)
+    exps = []
+    for (bi, cut, flip, _, tag, v) in cf:
+        exps.append(("fatal",) if tag == "eio" else expectation(cb[bi], dict(cut=cut, flip=flip, fault_at=-1)))
+    # the decoded stream of every case (probe route), for the model
+    pfaults = [(bi, cut, flip, -1, tag, nofault) if tag != "eio" else (bi, -1, -1, cut, tag, nofault) for (bi, cut, flip, _, tag, v) in cf]
+    uniqp = sorted(set((f[0], f[1], f[2], f[3]) for f in pfaults))
+    pobs = ctx.vh_robust("c17", vh_cases(ctx, cb, [(a, b_, c, d, "p", nofault) for (a, b_, c, d) in uniqp], "probe"), timeout=900, one_timeout=120)
+    pmap = dict(zip(uniqp, pobs))
+
+    def one(j):
+        k, (bi, cut, flip, _, tag, v) = j
+        b = cb[bi]
+        flags = [CMD_FLAG[b.fmt]] if v[0] == "explicit" else []
+        if tag == "eio":
+            return run_binary(bindir, b.blob[:cut], b.fmt, True, tmp, 100000 + k, flags, eio=True, timeout=30)
+        return run_binary(bindir, mutate(b.blob, cut, flip), b.fmt, v[1] == "stdin", tmp, 100000 + k, flags, timeout=30)
+    with ThreadPoolExecutor(max_workers=12) as ex:
+        res = list(ex.map(one, list(enumerate(cf))))
+    terms, tix = [], []
+    for k, (f, e, o) in enumerate(zip(cf, exps, res)):
+        bi, cut, flip, _, tag, v = f
+        b = cb[bi]
+        key = "cmd:%s-%s/%s/%s/%s" % (v[0], v[1], b.fmt, tag, o["kind"])
+        dist[key] = dist.get(key, 0) + 1
+        if not judge(e, o):
+            kk = state.setdefault("nviol", {})
+            kk["cmd"] = kk.get("cmd", 0) + 1
+            pf = state.setdefault("cmd_per_format", {})
+            pf[(b.fmt, tag)] = pf.get((b.fmt, tag), 0) + 1
+            if pf[(b.fmt, tag)] <= 1 and kk["cmd"] <= 40:
+                ctx.violation("cmd_%s_%s_%s_%s" % (b.fmt, tag, v[0], v[1]), dict(
+                    property="C17", kind="direct-oracle", route="cmd", variant=list(v), flags=[CMD_FLAG[b.fmt]] if v[0] == "explicit" else [],
+                    case=dict(describe(b, (bi, cut, flip, -1, tag, nofault)), ids=b.ids), implementation=o, expected=list(e) if e else None,
+                    note="obiconvert %s %s" % (CMD_FLAG.get(b.fmt, "") if v[0] == "explicit" else "(format guessed)",
+                                                dict(file="<file>", stdin="< file", eio="< stream whose read fails with EIO after `cut` bytes")[v[1]])))
+        if not b.big:
+            pr = pmap[(bi, cut, flip, -1) if tag != "eio" else (bi, -1, -1, cut)]
+            if o["kind"] == "fatal":
+                ob = "OFatal"
+            elif o["kind"] != "ok":
+                ob = "ODiverges"
+            else:
+                ob = "OOkAll" if decoded_of(pr) == b.data and same_records(o.get("ids", ""), b.ids) else "OOkPartial"
+            clean = pr.get("open") == "nocontent" or (pr.get("open") == "ok" and pr.get("fin") == "eof")
+            if v[0] == "explicit" and clean and decoded_of(pr) != b.data:
+                continue          # plain bytes which are not the text, format imposed: the verdict is the parser's (outside the model)
+            # detection: the complete text is of the format of its container by construction; anything else which ends cleanly
+            # (a short file with damaged magic bytes read as plain data) is not a sequence file
+            term = case_term(pr, 1048576 if v[0] == "guess" else None, 1048576, decoded_of(pr) == b.data, ob, 1000 + bi, b.data)
+            if term is not None:
+                terms.append(term)
+                tix.append(k)
+    ctx.cov["cmd_runs"] = len(res)
+    ctx.cov["cmd_containers"] = len(cb)
+    ctx.cov["evaluations_cmd"] = len(res) + len(pobs)
+    mism = []
+    uniq = {}
+    for u, t in enumerate(terms):
+        uniq.setdefault(t, []).append(u)
+    uterms = list(uniq)
+    defs = ["Definition T%d : list N := [%s]." % (1000 + k, ";".join(str(x) for x in b.data)) for k, b in enumerate(cb) if not b.big]
+    label = "cmd%d" % os.getpid()
+    try:
+        bad, err = ctx.correspond(label, IMPORTS + "\nDefinition pre (n : N) (l : list N) : list N := fst (fst (take n l)).\n" + "\n".join(defs), uterms, shard=150)
+    finally:
+        cleanup_coq(ctx, label)
+    if bad is None:
+        broken.append(dict(kind="correspondence", detail=err))
+    else:
+        for u in bad:
+            for t in uniq[uterms[u]]:
+                k = tix[t]
+                bi, cut, flip, _, tag, v = cf[k]
+                mism.append(dict(route="cmd", variant=list(v), case=dict(describe(cb[bi], (bi, cut, flip, -1, tag, nofault)), container_b64=None, text_b64=None),
+                                 implementation=res[k], model_term=uterms[u][:600]))
+    return mism
 
 
 # ------------------------------------------------------------------ cases
@@ -225,6 +447,10 @@ def make_bases(ctx, tmp):
     bases.append(Base(ctx, tmp, "multi", "gz", "fasta", gen_fasta(rng, 40, multiline=True)))
     bases.append(Base(ctx, tmp, "plain", "raw", "fasta", gen_fasta(rng, 6)))
     bases.append(Base(ctx, tmp, "plain", "raw", "fastq", gen_fastq(rng, 4)))
+    # valid containers of an EMPTY text: intact they are an empty input (exit 0, no record); every cut of them is a
+    # container with a (partly) readable header which yields no data and must be reported, never taken for an empty file
+    for codec in ("gz", "bz2", "xz", "zst"):
+        bases.append(Base(ctx, tmp, "empty", codec, "fasta", b""))
     if not ctx.quick:
         for codec in ("bz2", "xz", "zst"):
             bases.append(Base(ctx, tmp, "multi", codec, "fasta", gen_fasta(rng, 40, multiline=True)))
@@ -232,6 +458,24 @@ def make_bases(ctx, tmp):
     big = gen_big_fasta(rng, 1300000)
     for codec in (("gz",) if ctx.quick else ("gz", "bz2", "zst")):
         bases.append(Base(ctx, tmp, "big", codec, "fasta", big))
+    bases.append(Base(ctx, tmp, "bigraw", "raw", "fasta", gen_big_fasta(rng, 2 * (1 << 20) + 150000)))
+    # two members / frames / streams, the first one ending at a MiB boundary -1 / +0 / +1 of the DEcompressed text (the sizes of
+    # the sniffer buffer and of the chunk buffer): a fault in the second member surfaces exactly there; texts of 0.5 to 3 MiB
+    MIB = 1 << 20
+    if ctx.quick or EXTENDED_SEARCH[0]:
+        plan = [("gz", 2 * MIB + 70000, MIB + rng.choice((-1, 0, 1))), ("zst", MIB + MIB // 2, MIB + rng.choice((-1, 0, 1))),
+                (rng.choice(("bz2", "xz")), MIB // 2, MIB // 4)]
+    else:
+        plan = [(codec, size, k * MIB + d) for codec in ("gz", "bz2", "xz", "zst")
+                for size, k in ((MIB // 2 + 11, 0), (MIB + MIB // 2, 1), (3 * MIB, 1), (3 * MIB, 2), (2 * MIB + 70000, 2)) for d in (-1, 0, 1) if k * MIB + d > 0]
+        plan += [(codec, MIB // 2, MIB // 4) for codec in ("gz", "bz2", "xz", "zst")]
+    texts = {}
+    for n, (codec, size, l1) in enumerate(plan):
+        if size not in texts:
+            texts[size] = gen_big_fasta(rng, size)
+        t = texts[size]
+        first = compress(codec, t[:l1])
+        bases.append(Base(ctx, tmp, "mm%d" % n, codec, "fasta", t, blob=first + compress(codec, t[l1:]), m1=len(first)))
     return bases
 
 
@@ -247,44 +491,97 @@ def gen_big_fasta(rng, size):
 
 
 SMALL_B = [2, 3, 4, 5, 7, 8, 13, 16, 33, 64, 100, 257, 1000]
+EXTENDED_SEARCH = [False]      # set during the extended search of run(): thorough-size small containers, quick-size big ones
+
+
+HDRLEN = dict(gz=10, bz2=4, xz=12, zst=6)     # container header (gz: fixed header; xz: stream header; bz2/zst: magic + first descriptor bytes)
+TRAILER = 40                                   # bytes at the end of a container searched exhaustively for harmful single-bit flips
+
+
+def sched(rng, big=False):
+    """Read schedule of the raw reader handed to xopen.Buf: at most `step` bytes per Read (0 = as many as asked) and
+    whether the final error (io.EOF / injected fault) is returned together with the last bytes (n > 0)."""
+    return dict(step=rng.choice((0, 0, 0, 4096, 65536) if big else (0, 0, 1, 2, 3, 7, 64, 4096)), eager=rng.random() < 0.4)
 
 
 def gen_faults(ctx, bases):
-    """List of (base index, cut, flip, fault_at, tag)."""
+    """List of (base index, cut, flip, fault_at, tag, read schedule)."""
     rng = ctx.rng
     faults = []
+
+    def add(bi, cut, flip, fat, tag, opt=None):
+        faults.append((bi, cut, flip, fat, tag, opt or sched(rng, bases[bi].big)))
     for bi, b in enumerate(bases):
         n = len(b.blob)
-        faults.append((bi, -1, -1, -1, "intact"))
+        add(bi, -1, -1, -1, "intact")
+        if b.m1 is not None:
+            # two members: faults inside the second one (and in the trailer of the first one, at the boundary)
+            m1, h = b.m1, HDRLEN[b.codec]
+            cuts = [m1 + 1, m1 + h, m1 + (n - m1) // 2, n - 1, m1 - 1, m1]
+            if ctx.quick:
+                cuts = cuts[:2] + [rng.choice(cuts[2:4]), rng.choice(cuts[4:])]
+            else:
+                cuts += [m1 + h // 2, m1 + h + 1, m1 + (n - m1) // 3, n - 5]
+            for cut in cuts:
+                add(bi, cut, -1, -1, "cut2")
+            add(bi, -1, 8 * (m1 - 1 - rng.randrange(0, 4)) + rng.randrange(0, 8), -1, "tflip")
+            add(bi, -1, 8 * (n - 1 - rng.randrange(0, 4)) + rng.randrange(0, 8), -1, "tflip")
+            add(bi, -1, -1, rng.choice((m1, m1 + 1, m1 + h)), "inject")
+            continue
+        if b.name == "bigraw":
+            # plain text, a read error exactly at a MiB boundary -1 / 0 / +1 of the stream (the sizes of the sniffer buffer and of the
+            # chunk buffer), delivered alone and together with the last bytes, whole-buffer reads and 4 KiB reads
+            mib = 1 << 20
+            ks = [k * mib + d for k in (1, 2) for d in (-1, 0, 1) if k * mib + d < n]
+            for k in (ks if not ctx.quick else [mib - 1, mib, mib + 1, rng.choice(ks[3:] or ks)]):
+                for eager in (False, True):
+                    add(bi, -1, -1, k, "inject", dict(step=rng.choice((0, 4096, 65536)), eager=eager))
+            continue
         if b.name == "big":
             # cuts late enough for more than 1 MiB to be decoded before the fault
             for cut in [n - 1, n - 8, n - 9, n - 200, n - n // 50] + ([] if ctx.quick else [n - n // 20, n - n // 10]):
-                faults.append((bi, cut, -1, -1, "cut"))
-            faults.append((bi, -1, -1, n - n // 40, "inject"))
+                add(bi, cut, -1, -1, "cut")
+            add(bi, -1, -1, n - n // 40, "inject")
             continue
         if b.codec != "raw":
-            cuts = range(0, n) if (b.name == "small" or not ctx.quick) else sorted(rng.sample(range(0, n), 120))
+            cuts = range(0, n) if (b.name in ("small", "empty") or not ctx.quick) else sorted(rng.sample(range(0, n), 120))
             for cut in cuts:
-                faults.append((bi, cut, -1, -1, "cut"))
+                add(bi, cut, -1, -1, "cut")
         else:
-            faults.append((bi, 0, -1, -1, "cut"))
-        ks = range(0, n) if (b.name != "multi" and (b.codec in ("gz", "raw") or not ctx.quick)) else sorted(rng.sample(range(0, n), 40))
+            add(bi, 0, -1, -1, "cut")
+        ks = range(0, n) if (b.name not in ("multi", "empty") and (b.codec in ("gz", "raw") or not ctx.quick)) else sorted(rng.sample(range(0, n), min(n, 12 if b.name == "empty" else 40)))
         for k in ks:
-            faults.append((bi, -1, -1, k, "inject"))
+            add(bi, -1, -1, k, "inject")
         if b.codec == "raw":
-            faults.append((bi, -1, -1, n, "inject"))
-    nflip = 200 if ctx.quick else 3000
-    comp = [i for i, b in enumerate(bases) if b.codec != "raw" and b.name != "big"]
+            add(bi, -1, -1, n, "inject")
+    nflip = 100 if ctx.quick else 3000
+    comp = [i for i, b in enumerate(bases) if b.codec != "raw" and not b.big]
     for _ in range(nflip):
         bi = rng.choice(comp)
-        faults.append((bi, -1, rng.randrange(0, 8 * len(bases[bi].blob)), -1, "flip"))
+        add(bi, -1, rng.randrange(0, 8 * len(bases[bi].blob)), -1, "flip")
+    # single-bit flips in the trailer (CRC / length / end-of-stream marker / index / footer): all of them in thorough
+    for bi in comp:
+        n = len(bases[bi].blob)
+        bits = list(range(8 * max(0, n - TRAILER), 8 * n))
+        if ctx.quick:
+            bits = rng.sample(bits, min(len(bits), 8))
+        off = xz_index_offset(bases[bi].blob) if bases[bi].codec == "xz" else None
+        if off is not None:
+            # corpus: the index indicator of an xz stream (witness class of the known finding xz-index-indicator-bitflip, bits 3..7)
+            bits = sorted(set(bits) | {8 * off + k for k in ((0, 3, 7) if ctx.quick else range(8))})
+        for bit in bits:
+            add(bi, -1, bit, -1, "tflip")
+        if off is not None:
+            # corpus: the size byte of the (only) block header (witness class of the known finding xz-last-block-header-size-bitflip)
+            for k in ((6, 7) if ctx.quick else range(8)):
+                add(bi, -1, 8 * 12 + k, -1, "hflip")
     return faults
 
 
 def vh_cases(ctx, bases, faults, mode, pick_b=False):
     cs = []
-    for (bi, cut, flip, fat, tag) in faults:
-        c = dict(mode=mode, path=bases[bi].path, cut=cut, flip=flip, fault_at=fat, b=0)
+    for (bi, cut, flip, fat, tag, opt) in faults:
+        c = dict(mode=mode, path=bases[bi].path, cut=cut, flip=flip, fault_at=fat, b=0, step=opt["step"], eager=opt["eager"], nodata=bases[bi].big)
         if pick_b:
             c["b"] = ctx.rng.choice(SMALL_B)
         cs.append(c)
@@ -296,7 +593,25 @@ def strip_nl(b):
 
 
 # ------------------------------------------------------------------ evaluation
-KNOWN_XZ = "xz-clean-eof-on-truncation"
+KNOWN_XZ_IDX = "xz-index-indicator-bitflip"           # round 2: found, then fixed in xopen (the key matches nothing any more)
+KNOWN_XZ_BH = "xz-last-block-header-size-bitflip"
+KNOWN_LINES = {KNOWN_XZ_BH: ("an xz input whose last block header has a corrupt size byte reaching beyond the end of the file is accepted without the records "
+                             "of that block (a single-block file is handled as an empty file): the xz library (ulikunitz/xz) ends the stream with a clean "
+                             "io.EOF; index and footer are intact, so xopen's end-of-stream guard cannot tell"),
+               KNOWN_XZ_IDX: ("an xz input with a bit of its index indicator byte flipped is accepted (all records delivered): the xz library (ulikunitz/xz) "
+                              "takes the byte for the size of a block header reaching beyond the end of the file and ends the stream with a clean io.EOF")}
+
+
+def xz_index_offset(blob):
+    """Offset of the index indicator of a single-stream xz container (from the backward size of its footer), or None."""
+    if len(blob) < 32 or blob[-2:] != b"YZ":
+        return None
+    size = (int.from_bytes(blob[-8:-4], "little") + 1) * 4
+    off = len(blob) - 12 - size
+    return off if off >= 12 and blob[off] == 0 else None
+
+
+KNOWN_XZ = "xz-clean-eof-on-truncation"      # round 1: known finding; round 2: fixed in xopen (the key matches nothing any more)
 KNOWN_XZ_LINE = ("an xz input cut inside a block header (or between the last block and the index) is accepted: the xz library "
                  "(ulikunitz/xz) itself ends such a stream with a clean io.EOF, so the command exits 0 with the blocks decoded so far")
 IMPORTS = ("From Coq Require Import List NArith ZArith Bool. Import ListNotations. Open Scope N_scope.\n"
@@ -312,20 +627,22 @@ class RawBase:
         self.path = os.path.join(tmp, "replay.%s.%s" % (self.fmt, self.codec))
         with open(self.path, "wb") as f:
             f.write(self.blob)
-        self.ids = records_of(self.data, self.fmt)
+        self.ids = records_of(self.data, self.fmt) if "ids" not in d else d["ids"]
+        self.big = len(self.data) > 100000
+        self.m1 = d.get("m1")
 
 
 def describe(base, f):
-    bi, cut, flip, fat, tag = f
+    bi, cut, flip, fat, tag, opt = f
     return dict(file="%s.%s.%s" % (base.name, base.fmt, base.codec), codec=base.codec, fmt=base.fmt, container_len=len(base.blob),
-                cut=cut, flip=flip, fault_at=fat, kind=tag, container_b64=base64.b64encode(base.blob).decode(),
-                text_b64=base64.b64encode(base.data).decode())
+                cut=cut, flip=flip, fault_at=fat, kind=tag, step=opt["step"], eager=opt["eager"], m1=base.m1,
+                container_b64=base64.b64encode(base.blob).decode(), text_b64=base64.b64encode(base.data).decode())
 
 
 def report(ctx, state, name, route, base, f, obs, exp, extra=None, known=None):
     """Oracle failure: known finding or VIOLATION (at most 3 replays per route)."""
     if known and ctx.kf_match(known):
-        ctx.known(known, KNOWN_XZ_LINE)
+        ctx.known(known, KNOWN_LINES.get(known, KNOWN_XZ_LINE))
         state["known"] = state.get("known", 0) + 1
         return
     k = state.setdefault("nviol", {})
@@ -361,6 +678,8 @@ def case_term(probe, sn, b, recog, obs, bi=None, text=None):
         data, fin, hdr = b"", "REof", "false"
     if text is not None and len(data) > 8 and text.startswith(data):
         lit = "(pre %d T%d)" % (len(data), bi)          # a prefix of the text of container bi (defined once per shard)
+    elif len(data) > 20000:
+        return None      # a bit flip made the decoder inflate the stream (hundreds of kB of zeros): too long for a Gallina literal, direct oracle only
     else:
         lit = "[%s]" % ";".join(str(x) for x in data)
     return "mkc %s %s %s %s %d %d %s (%s)" % (lit, fin, hdr, "(Some %d)" % sn if sn else "None", b, ext_of(b),
@@ -371,7 +690,7 @@ def imports_for(bases):
     """Model import + the text of every (small) container, so that a decoded prefix is written `pre n Tk`."""
     defs = ["Definition pre (n : N) (l : list N) : list N := fst (fst (take n l))."]
     for k, b in enumerate(bases):
-        if b.name != "big":
+        if not b.big:
             defs.append("Definition T%d : list N := [%s]." % (k, ";".join(str(x) for x in b.data)))
     return IMPORTS + "\n" + "\n".join(defs)
 
@@ -402,16 +721,33 @@ def obs_chunks(o):
     return "OOkBytes %d %d" % (len(d), sum(d))
 
 
+def cleanup_coq(ctx, label):
+    import glob
+    from vlib import BUILD
+    for fn in glob.glob(os.path.join(BUILD, "coq", "%s_%s_*" % (ctx.pid, label))) + glob.glob(os.path.join(BUILD, "coq", ".%s_%s_*" % (ctx.pid, label))):
+        try:
+            os.unlink(fn)
+        except OSError:
+            pass
+
+
 def run(ctx, broken):
     tmp = tempfile.mkdtemp(prefix="c17_")
     try:
         res = _run(ctx, broken, tmp)
-        if res["mism"] and not ctx.violations:
+        if res["mism"] and not ctx.violations and os.environ.get("C17_NO_EXTENDED"):
+            print("C17 debug: first mismatches:", json.dumps(res["mism"][:3], default=str)[:3000])
+            broken.append(dict(kind="correspondence", name="corr:C17/" + res["mism"][0]["route"], first_diverging_case=res["mism"][0], n_diverging=len(res["mism"])))
+        elif res["mism"] and not ctx.violations:
             # the model and the code diverge although the direct oracle is satisfied: search harder (more bit flips,
             # every truncation point of the larger files) before reporting the bare divergence
             ctx.cov["search"] = "extended"
             saved = dict(ctx.cov)
-            _run(ctx, [], tmp, extended=True)
+            EXTENDED_SEARCH[0] = True
+            try:
+                _run(ctx, [], tmp, extended=True)
+            finally:
+                EXTENDED_SEARCH[0] = False
             ctx.cov.update(saved)
             if not ctx.violations:
                 m = res["mism"][0]
@@ -448,7 +784,16 @@ def _run(ctx, broken, tmp, bases=None, faults=None, extended=False):
     known = {}
     for i, o in zip(xzi, xzo):
         if exps[i] and exps[i][0] == "fatal" and o.get("kind") == "ok" and o.get("open") == "ok" and o.get("fin") == "eof":
-            known[i] = KNOWN_XZ     # the reference decoder rejects the container, the library ends it with io.EOF
+            # the reference decoder rejects the container, the library ends it with io.EOF: caught by xopen's footer guard since
+            # round 2, except a flipped index indicator (the footer is intact)
+            f = faults[i]
+            bb = bases[f[0]]
+            if f[1] < 0 and f[2] >= 0 and f[2] // 8 == xz_index_offset(bb.blob):
+                known[i] = KNOWN_XZ_IDX
+            elif f[1] < 0 and f[2] >= 0 and f[2] // 8 == (12 if bb.m1 is None else bb.m1 + 12):
+                known[i] = KNOWN_XZ_BH          # first byte of the header of the last (only) block of the last stream
+            else:
+                known[i] = KNOWN_XZ
     for i, (f, e, o) in enumerate(zip(faults, exps, probe)):
         b = bases[f[0]]
         count("probe", i, o)
@@ -471,12 +816,12 @@ def _run(ctx, broken, tmp, bases=None, faults=None, extended=False):
             count(route, i, o)
             if not judge(exps[i], o):
                 report(ctx, state, faults[i][4], route, bases[faults[i][0]], faults[i], o, exps[i], known=known.get(i))
-            if bases[faults[i][0]].name != "big":      # 1.3 MB of text per term: the big cases are judged by the direct oracle only
+            if not bases[faults[i][0]].big:      # 1.3 MB of text per term: the big cases are judged by the direct oracle only
                 terms.append((route, i, o, case_term(probe[i], 1048576, 1048576, recognised(decoded_of(probe[i])), obs_records(o, probe[i], bases[faults[i][0]].fmt), faults[i][0], bases[faults[i][0]].data)))
 
     tm["reader_file_s"] = round(time.time() - t0, 1)
     # --- route 2: ReadSeqFileChunk with small buffers behind Buf (FASTA bases only: the splitter is EndOfLastFastaEntry)
-    cidx = [i for i, f in enumerate(faults) if bases[f[0]].fmt == "fasta" and bases[f[0]].name != "big"]
+    cidx = [i for i, f in enumerate(faults) if bases[f[0]].fmt == "fasta" and not bases[f[0]].big]
     ccases = vh_cases(ctx, bases, [faults[i] for i in cidx], "chunk", pick_b=True)
     cobs = ctx.vh_robust("c17", ccases, timeout=1800, one_timeout=120)
     for i, c, o in zip(cidx, ccases, cobs):
@@ -517,13 +862,15 @@ def _run(ctx, broken, tmp, bases=None, faults=None, extended=False):
             count(route, i, o)
             if not judge(exps[i], o):
                 report(ctx, state, faults[i][4], route, bases[faults[i][0]], faults[i], o, exps[i], known=known.get(i))
-            if bases[faults[i][0]].name != "big":      # 1.3 MB of text per term: the big cases are judged by the direct oracle only
+            if not bases[faults[i][0]].big:      # 1.3 MB of text per term: the big cases are judged by the direct oracle only
                 terms.append((route, i, o, case_term(probe[i], 1048576, 1048576, recognised(decoded_of(probe[i])), obs_records(o, probe[i], bases[faults[i][0]].fmt), faults[i][0], bases[faults[i][0]].data)))
 
     tm["binary_s"] = round(time.time() - t0, 1)
     # --- correspondence with the model (repaired error handling)
     mism = []
     uniq = {}                     # the four production-size routes give the same term for the same fault when they agree
+    ctx.cov["model_terms_skipped_too_long"] = sum(1 for t in terms if t[3] is None)
+    terms = [t for t in terms if t[3] is not None]
     for k, t in enumerate(terms):
         uniq.setdefault(t[3], []).append(k)
     uterms = list(uniq)
@@ -533,17 +880,12 @@ def _run(ctx, broken, tmp, bases=None, faults=None, extended=False):
         # too much for one run: every short term, one long term (more than 2 kB of decoded data) out of `stride`
         uterms = [t for k, t in enumerate(uterms) if len(t) < 6000 or k % stride == 0]
         ctx.cov["model_terms_sampled"] = "long terms 1/%d" % stride
+    ctx.cov["longest_terms"] = sorted(((len(t), t[:80]) for t in uterms), reverse=True)[:3]
     label = "%s%d" % ("ext" if extended else "main", os.getpid())      # private file names: concurrent runs of this check do not collide
     try:
         bad, err = ctx.correspond(label, imports_for(bases), uterms, shard=200)
     finally:
-        import glob
-        from vlib import BUILD
-        for fn in glob.glob(os.path.join(BUILD, "coq", "%s_%s_*" % (ctx.pid, label))) + glob.glob(os.path.join(BUILD, "coq", ".%s_%s_*" % (ctx.pid, label))):
-            try:
-                os.unlink(fn)
-            except OSError:
-                pass
+        cleanup_coq(ctx, label)
     ctx.cov["model_terms_distinct"] = len(uterms)
     if bad is None:
         broken.append(dict(kind="correspondence", detail=err))
@@ -553,7 +895,42 @@ def _run(ctx, broken, tmp, bases=None, faults=None, extended=False):
             mism.append(dict(route=route, case=describe(bases[faults[i][0]], faults[i]), implementation=o, probe=dict(probe[i], data=None),
                              model_term=term if len(term) < 2000 else term[:2000] + "..."))
 
+    # --- the xz end-of-stream guard of xopen: xz_guard (raw bytes, verdict of the library alone) against what Buf answers
+    ctx.cov["xz_library_clean_eof_on_damaged"] = len(known)
+    xterms, xidx = [], []
+    xdefs = ["Definition pre (n : N) (l : list N) : list N := fst (fst (take n l))."]
+    for k, b in enumerate(bases):
+        if b.codec == "xz" and not b.big:
+            xdefs.append("Definition X%d : list N := [%s]." % (k, ";".join(str(x) for x in b.blob)))
+    for i, o in zip(xzi, xzo):
+        b = bases[faults[i][0]]
+        if b.big or o.get("kind") != "ok" or probe[i].get("kind") != "ok":
+            continue
+        raw = mutate(b.blob, faults[i][1], faults[i][2])
+        if sniffed_codec(raw) != "xz":
+            continue                      # the magic bytes are damaged: the input is not read as xz
+        lit = "(pre %d X%d)" % (len(raw), faults[i][0]) if faults[i][2] < 0 else "[%s]" % ";".join(str(x) for x in raw)
+        eof = probe[i].get("open") == "nocontent" or (probe[i].get("open") == "ok" and probe[i].get("fin") == "eof")
+        xterms.append("mkxz %s %s %s %s" % (lit, "true" if o.get("open") == "ok" else "false", "REof" if o.get("fin") == "eof" else "ROther",
+                                            "true" if eof else "false"))
+        xidx.append(i)
+    if xterms:
+        xbad, xerr = ctx.correspond(label + "xz", IMPORTS + "\n" + "\n".join(xdefs), xterms, fn="xz_mismatches", shard=400)
+        cleanup_coq(ctx, label + "xz")
+        ctx.cov["xz_guard_model_terms"] = len(xterms)
+        if xbad is None:
+            broken.append(dict(kind="correspondence", detail=xerr))
+        else:
+            for u in xbad:
+                i = xidx[u]
+                mism.append(dict(route="xzguard", case=describe(bases[faults[i][0]], faults[i]), implementation=dict(probe[i], data=None),
+                                 library_alone=xzo[xzi.index(i)], model_term=xterms[u][:2000]))
+
     tm["coq_s"] = round(time.time() - t0, 1)
+    # --- route 4: every other way a command opens a (compressed) input: explicit formats, EMBL / GenBank / ecoPCR / CSV, stdin
+    if bindir is not None and len(bases) > 1:
+        mism += cmd_matrix(ctx, broken, tmp, bindir, state, dist, extended)
+        tm["cmd_s"] = round(time.time() - t0, 1)
     ctx.cov["cumulative_times"] = tm
     ctx.cov["run_s"] = round(time.time() - t0, 1)
     ctx.cov["evaluations"] = len(probe) + len(xzo) + sum(len(v[1]) for v in routes.values()) + len(cobs) + nbin
@@ -576,15 +953,36 @@ def _run(ctx, broken, tmp, bases=None, faults=None, extended=False):
     return dict(bases=bases, faults=faults, exps=exps, probe=probe, routes=routes, chunk=(cidx, ccases, cobs), mism=mism, terms=terms)
 
 
+def replay_cmd(ctx, rp, tmp):
+    c, v = rp["case"], rp["variant"]
+    base = RawBase(tmp, c)
+    bindir, err = ctx.build_cmds(["obiconvert"])
+    if bindir is None:
+        print("replay: cannot build obiconvert:", err)
+        return
+    flags = rp.get("flags", [])
+    if v[1] == "eio":
+        exp = ("fatal",)
+        o = run_binary(bindir, base.blob[:c["cut"]], base.fmt, True, tmp, 1, flags, eio=True, timeout=30)
+    else:
+        exp = expectation(base, dict(cut=c["cut"], flip=c["flip"], fault_at=-1))
+        o = run_binary(bindir, mutate(base.blob, c["cut"], c["flip"]), base.fmt, v[1] == "stdin", tmp, 1, flags, timeout=30)
+    print("replay: obiconvert %s on %s (%s, %s) cut=%s flip=%s  expected=%s" % (" ".join(flags), c["file"], v[0], v[1], c["cut"], c["flip"], exp[0] if exp else None))
+    print("  outcome:", {k: (x if k != "ids" else x[:80]) for k, x in o.items()})
+    print("  oracle:", "satisfied" if judge(exp, o) else "VIOLATED")
+
+
 def replay(ctx, rp):
     if "case" not in rp:
         print("replay: nothing to re-run in this file (%s)" % rp.get("reason", rp.get("kind")))
         return
     tmp = tempfile.mkdtemp(prefix="c17r_")
     try:
+        if rp.get("route") == "cmd":
+            return replay_cmd(ctx, rp, tmp)
         c = rp["case"]
         base = RawBase(tmp, c)
-        f = (0, c["cut"], c["flip"], c["fault_at"], c.get("kind", "replay"))
+        f = (0, c["cut"], c["flip"], c["fault_at"], c.get("kind", "replay"), dict(step=c.get("step", 0), eager=c.get("eager", False)))
         broken = []
         res = _run(ctx, broken, tmp, bases=[base], faults=[f])
         print("replay: %s cut=%s flip=%s fault_at=%s  expected=%s" % (c["file"], c["cut"], c["flip"], c["fault_at"], res["exps"][0]))
